@@ -136,15 +136,23 @@ func VC11Hash() {
 // vCollide has the same hash bucket as "msg" (fnv32a 3041451778 vs 3766509314, both = 1730 mod 4096).
 const vCollide = "m2853"
 
-//verif: prop=C11 bounds="bucket identity over symbolic levels for the message menu {msg, colliding m2853, other}; fnv32a itself is covered by VC11Hash"
+//verif: prop=C11 bounds="bucket identity over symbolic levels for the message menu {msg, three messages colliding with it modulo 4096 (with different residues modulo larger table sizes), other}; fnv32a itself is covered by VC11Hash"
 func VC11Bucket() {
 	cs := newCounters()
 	l1, l2 := Level(vrt.Int8("l1")), Level(vrt.Int8("l2"))
 	vrt.Assume(l1 >= DebugLevel && l1 <= FatalLevel)
 	vrt.Assume(l2 >= DebugLevel && l2 <= FatalLevel)
-	msgs := []string{"msg", vCollide, "other"}
-	k1, k2 := msgs[vrt.Choice("k1", 3)], msgs[vrt.Choice("k2", 3)]
-	if fnv32a("msg")%_countersPerLevel != fnv32a(vCollide)%_countersPerLevel || fnv32a("msg")%_countersPerLevel == fnv32a("other")%_countersPerLevel {
+	// three twins of "msg" in its bucket (hashes equal modulo 4096) whose hashes differ from it by different
+	// multiples of 4096 modulo larger table sizes, so that a table indexed by anything but (level, hash mod 4096)
+	// separates some of them or merges them across levels
+	msgs := []string{"msg", vCollide, "m11897", "m13514", "other"}
+	k1, k2 := msgs[vrt.Choice("k1", 5)], msgs[vrt.Choice("k2", 5)]
+	for _, tw := range msgs[1:4] {
+		if fnv32a("msg")%_countersPerLevel != fnv32a(tw)%_countersPerLevel {
+			vrt.Fail("hash-is-not-the-fixed-fnv1a")
+		}
+	}
+	if fnv32a("msg")%_countersPerLevel == fnv32a("other")%_countersPerLevel {
 		vrt.Fail("hash-is-not-the-fixed-fnv1a")
 	}
 	same := cs.get(l1, k1) == cs.get(l2, k2)
